@@ -33,8 +33,30 @@ fn ensure_no_rseq() {
     std::process::exit(2);
 }
 
+/// Runs a few shrunk cases of one monitor in this process. Exit 1 if the monitor saw a violation;
+/// the observer (Miri, memcheck) reports undefined behaviour by itself.
+fn slice(prop: &str, first: u64, n: u64) -> i32 {
+    util::install_panic_hook();
+    let Some(mut m) = mon::monitor(prop, Tier::Quick) else { return 2 };
+    m.shrink();
+    let seed = seed_from_env();
+    let mut col = Collector::new(prop, Tier::Quick, seed);
+    let total = m.total_cases();
+    for k in first..(first + n).min(total) {
+        let mut rng = util::Rng::derive(seed ^ util::hash_str(prop), k, 0);
+        m.run_case(k, &mut rng, &mut col);
+    }
+    println!("slice {} cases {}..{}: evaluations={} violations={}", prop, first, first + n, col.evaluations, col.violations.len());
+    for v in col.violations.values() {
+        println!("VIOLATION-IN-SLICE sig=\"{}\" {}", v.sig, v.summary.chars().take(300).collect::<String>());
+    }
+    if col.violations.is_empty() { 0 } else { 1 }
+}
+
 fn main() {
-    ensure_no_rseq();
+    if std::env::var("AXMON_NO_REEXEC").is_err() {
+        ensure_no_rseq();
+    }
     let args: Vec<String> = std::env::args().collect();
     if args.len() < 2 {
         usage();
@@ -72,6 +94,16 @@ fn main() {
                 std::process::exit(2);
             };
             worker_main(m, prop, tier, seed, i, n, &out, only, start, &skip);
+        }
+        "slice" => {
+            // slice <prop> <first case> <number of cases> : in-process, no supervisor (for Miri / valgrind)
+            if args.len() < 5 {
+                usage();
+            }
+            let prop = args[2].as_str();
+            let first: u64 = args[3].parse().unwrap();
+            let n: u64 = args[4].parse().unwrap();
+            std::process::exit(slice(prop, first, n));
         }
         "replay" => {
             // replay <prop> <file>
